@@ -213,6 +213,9 @@ def mk_cutter(st, ident):
 def km_cutter_flag(name):
     def fn(ex, st, fr, self, args, kwargs):
         ex.used_models.add("D-RESTR")
+        info = st.get(self, "info")
+        if info is not None and name in info.what:
+            return [(st, "ok", VT(tm.B(info.what[name])))]
         return [(st, "ok", VT(tm.app(name, BOOL, st.get(self, "ident").t)))]
 
     return fn
@@ -234,10 +237,16 @@ def km_fragtuple_len(ex, st, fr, self, args, kwargs):
 
 def km_cutter_elucidate(ex, st, fr, self, args, kwargs):
     ex.used_models.add("D-RESTR")
+    info = st.get(self, "info")
+    if info is not None:   # a concrete enzyme of Bio.Restriction: its real constants
+        return [(st, "ok", VT(tm.S(info.what["elucidate"])))]
     return [(st, "ok", VT(tm.app("elucidate", STR, st.get(self, "ident").t)))]
 
 
 def kp_cutter_ovhgseq(ex, st, self):
+    info = st.get(self, "info")
+    if info is not None:
+        return [(st, "ok", VT(tm.S(info.what["ovhgseq"])))]
     return [(st, "ok", VT(tm.app("ovhgseq", STR, st.get(self, "ident").t)))]
 
 
@@ -262,6 +271,8 @@ _orig_class_cell = MocloModels.class_cell
 def _class_cell(self, ex, st, cls, attr):
     if hasattr(cls, "sym") and attr == "cutter":
         st2, o = mk_cutter(st, _cutter_of(cls))
+        if getattr(cls, "cutter_info", None) is not None:
+            st2 = st2.set(o, "info", VOpaque(cls.cutter_info))
         return [(st2, "ok", o)]
     if hasattr(cls, "sym") and attr == "signature":
         c = cls.sym
@@ -680,3 +691,63 @@ def _init_object(self, ex, st, fr, obj, args, kwargs):
 
 
 MocloModels.init_object = _init_object
+
+
+# ---------------------------------------------------------------------- characterize: candidate classes
+_prev_from_elem3 = MocloModels.from_elem
+
+
+def _from_elem3(self, ex, st, t):
+    if t.sort == INT and getattr(self, "elem_kind", None) == "PartClass":
+        return self.sym_class("AbstractPart", t)
+    return _prev_from_elem3(self, ex, st, t)
+
+
+MocloModels.from_elem = _from_elem3
+_prev_as_elem3 = MocloModels.as_elem
+
+
+def _as_elem3(self, ex, st, v, sort):
+    if isinstance(v, VClass) and hasattr(v, "sym") and sort == INT:
+        return v.sym
+    return _prev_as_elem3(self, ex, st, v, sort)
+
+
+MocloModels.as_elem = _as_elem3
+_prev_class_cell2 = MocloModels.class_cell
+
+
+def _class_cell2(self, ex, st, cls, attr):
+    if hasattr(cls, "sym") and attr == "__subclasses__" and hasattr(cls, "subclasses"):
+        subs = cls.subclasses
+        return [(st, "ok", VModel("cls.__subclasses__", lambda ex_, s, fr, a, k: [(s, "ok", VT(subs, "list"))]))]
+    return _prev_class_cell2(self, ex, st, cls, attr)
+
+
+MocloModels.class_cell = _class_cell2
+_prev_instantiate = MocloModels.instantiate
+
+
+def _instantiate(self, ex, st, fr, cls, args, kwargs):
+    if hasattr(cls, "sym"):
+        # an instance of a symbolic part class wrapping the record; whether the class accepts it is accepts(cls, record)
+        st = st.fork()
+        e = VObj(cls.symbase)
+        st.set_inplace(e, "__class__", cls)
+        st.set_inplace(e, "record", args[0])
+        st.set_inplace(e, "candidate", VT(cls.sym))
+        return [(st, "ok", e)]
+    return _prev_instantiate(self, ex, st, fr, cls, args, kwargs)
+
+
+MocloModels.instantiate = _instantiate
+
+
+def m_isabstract(ex, st, fr, args, kwargs):
+    """moclo._utils.isabstract(cls) (inspect.isabstract or a NotImplemented attribute): a constant of the class"""
+    (c,) = args
+    if isinstance(c, VClass) and hasattr(c, "is_abstract"):
+        return [(st, "ok", VT(c.is_abstract))]
+    if isinstance(c, VClass) and hasattr(c, "sym"):
+        return [(st, "ok", VT(tm.app("isabstract", BOOL, c.sym)))]
+    raise Unsupported("isabstract(%r)" % (c,))
